@@ -287,6 +287,15 @@ def r01_4(ctx) -> None:
 
 
 # ----------------------------------------------------------------------------------------------- R01.5
+def _b64_read_kind(node: ast.AST) -> str:
+    """identifies a read of the b64 member independently of variable names and of how the surrounding branch is spelled"""
+    if isinstance(node, ast.Compare):
+        return "membership test of 'b64'"
+    if isinstance(node, ast.Subscript):
+        return "subscript ['b64']"
+    return "lookup .get('b64')"
+
+
 def r01_5(ctx) -> None:
     """reads of header member "b64" that steer payload processing must not see the unprotected header"""
     eng = ctx.eng
@@ -328,7 +337,7 @@ def r01_5(ctx) -> None:
                 if unprot:
                     ctx.fail("R01.5", fn, node, "the unencoded-payload switch \"b64\" is read from a view that includes the "
                              "unprotected header (not integrity protected): " + ", ".join(sorted(repr(l) for l in unprot)[:3]),
-                             construct=f"{shape(eng, fn, node)} [{E.short}]", slice=res.describe())
+                             construct=f"{_b64_read_kind(node)} [{E.short}]", slice=res.describe())
                 else:
                     ctx.ok("R01.5", f"{E.short} -> {fn.short}:{norm(node)}", "leaves " + res.describe(5))
     ctx.count("R01.5", n, 4, "reads of the b64 header member on consume paths")
